@@ -110,6 +110,12 @@ def main():
         seed = 0
     mod = importlib.import_module(f"props.{pid.lower()}")
     ctx = Ctx(pid, tier, seed)
+    if not os.environ.get("VERIF_HAVE_LOCK"):
+        # development aid: never run while tools/try_mutant.sh has a seeded change applied to the repository
+        import fcntl
+        os.makedirs(common.CACHE, exist_ok=True)
+        _lk = open(os.path.join(common.CACHE, "mutant.lock"), "a")
+        fcntl.flock(_lk, fcntl.LOCK_SH)
 
     if args.replay:
         rp = json.load(open(args.replay))
